@@ -395,7 +395,7 @@ def part_run(ctx: Ctx) -> Result:
     res.states += 1
     res.validated += 1
     res.evaluations += 1
-    rc = cli.main(["-c", "mcfg:CONFIG", "run", str(script)], out, err)
+    rc = cli.main(["-c", "mcfg:fresh()", "run", str(script)], out, err)
     store = mcfg.CONFIG.trace_store()
     mods = sorted(store.list_modules())
     rows = {(t.module, t.qualname) for m in mods for t in store.filter(m)}
@@ -415,7 +415,7 @@ def part_run(ctx: Ctx) -> Result:
     res.oblige("R:script-functions-ran-as-__main__", True)
     # the CLI's own listing of recorded modules, and `run -m <module>` (the module then IS __main__)
     out2, err2 = io.StringIO(), io.StringIO()
-    cli.main(["-c", "mcfg:CONFIG", "list-modules"], out2, err2)
+    cli.main(["-c", "mcfg:fresh()", "list-modules"], out2, err2)
     listed = sorted(x for x in out2.getvalue().split("\n") if x)
     res.transitions += 1
     if listed != sorted({m for m, _ in rows}):
@@ -429,7 +429,7 @@ def part_run(ctx: Ctx) -> Result:
     res.states += 1
     res.evaluations += 1
     try:
-        rc3 = cli.main(["-c", "mcfg:CONFIG", "run", "-m", runmod], out3, err3)
+        rc3 = cli.main(["-c", "mcfg:fresh()", "run", "-m", runmod], out3, err3)
     except SystemExit as e:
         rc3 = f"SystemExit({e.code})"
     store3 = mcfg.CONFIG.trace_store()
@@ -450,13 +450,44 @@ def part_run(ctx: Ctx) -> Result:
         res.states += 1
         res.evaluations += 1
         try:
-            cli.main(["-c", "mcfg:CONFIG", "run", str(sp)], o4, e4)
+            cli.main(["-c", "mcfg:fresh()", "run", str(sp)], o4, e4)
         except BaseException:  # noqa: BLE001 - the script's own exit is expected to propagate
             pass
         st4 = mcfg.CONFIG.trace_store()
         rows4 = {(t.module, t.qualname) for m in st4.list_modules() for t in st4.filter(m)}
         if want - rows4:
             res.violate(Violation(ID, "run", "admitted-not-recorded", dict(case, ending=ending), f"script ending with {ending}: admitted calls not recorded: {sorted(want - rows4)}"))
+    # modules whose names are textual parts / extensions of "__main__" are ordinary modules: their calls are recorded
+    odd = ["main", "m", "a", "ain", "_", "__", "n__", "__main__x", "x__main__", "__main", "main__"]
+    od = ctx.tmp / "runprog_odd"
+    od.mkdir(exist_ok=True)
+    saved = {n: sys.modules.pop(n) for n in odd if n in sys.modules}
+    sys.path.insert(0, str(od))
+    try:
+        for n in odd:
+            (od / f"{n}.py").write_text("def odd_fn(x):\n    return x\n")
+        sp = od / "script_odd.py"
+        sp.write_text("".join(f"import {n}\n{n}.odd_fn(1)\n" for n in odd) + "def in_script(x):\n    return x\nin_script(1)\n")
+        importlib.invalidate_caches()
+        mcfg.reset(db=str(od / "run_odd.sqlite3"))
+        clear_cache()
+        res.states += 1
+        res.evaluations += 1
+        cli.main(["-c", "mcfg:fresh()", "run", str(sp)], io.StringIO(), io.StringIO())
+        st5 = mcfg.CONFIG.trace_store()
+        rows5 = {(t.module, t.qualname) for m in st5.list_modules() for t in st5.filter(m)}
+        res.transitions += len(rows5)
+        want5 = {(n, "odd_fn") for n in odd}
+        if want5 - rows5:
+            res.violate(Violation(ID, "run", "admitted-not-recorded:module-named-like-part-of-__main__", case, f"modules {sorted(n for n, _ in want5 - rows5)} are not __main__, their admitted calls were not recorded"))
+        if rows5 - want5:
+            res.violate(Violation(ID, "run", "main-recorded", case, f"odd-module script: unexpected rows {sorted(rows5 - want5)}"))
+    finally:
+        sys.path.remove(str(od))
+        for n in odd:
+            sys.modules.pop(n, None)
+        sys.modules.update(saved)
+    res.oblige("R:modules-named-like-parts-of-__main__", True)
     mcfg.reset(db=db)
     res.sample({"part": "R", "rows": sorted(rows)})
     # custom filters: every subset of the 6 functions
@@ -485,6 +516,48 @@ def part_run(ctx: Ctx) -> Result:
         res.validated += 1
         if set(logged) != sel:
             res.violate(Violation(ID, "custom-filter", "subset-mismatch", {"part": "F", "mask": mask}, f"filter accepts {sorted(sel)} but logger saw {sorted(set(logged))}"))
+    # nested tracing blocks, every pair of subset filters over three functions: leaving the inner block hands tracing
+    # back to the outer one, and each logger only ever sees what its own filter accepts
+    n3 = names[:3]
+
+    def call3():
+        mod.f0(1); mod.f1(1); mod.f2(1)
+
+    for mo in range(8):
+        for mi in range(8):
+            so = {n3[i] for i in range(3) if mo & (1 << i)}
+            si = {n3[i] for i in range(3) if mi & (1 << i)}
+            co_, ci_ = {funcs[n].__code__ for n in so}, {funcs[n].__code__ for n in si}
+            lo: List[str] = []
+            li: List[str] = []
+
+            class LO:
+                def log(self, t):
+                    lo.append(t.func.__qualname__)
+
+                def flush(self):
+                    pass
+
+            class LI(LO):
+                def log(self, t):
+                    li.append(t.func.__qualname__)
+
+            with trace_calls(LO(), 0, lambda code: code in co_):
+                call3()
+                n_before = len(lo)
+                with trace_calls(LI(), 0, lambda code: code in ci_):
+                    call3()
+                n_mid = len(lo)
+                call3()
+            res.states += 1
+            res.transitions += 3
+            res.evaluations += 1
+            res.validated += 1
+            # f2 calls f0: an accepted f0 is therefore seen twice per round when f2 runs
+            per_round_o = sorted([n for n in n3 if n in so] + (["f0"] if "f0" in so else []))
+            per_round_i = sorted([n for n in n3 if n in si] + (["f0"] if "f0" in si else []))
+            if sorted(lo[:n_before]) != per_round_o or sorted(lo[n_mid:]) != per_round_o or sorted(li) != per_round_i or set(lo) - so or set(li) - si:
+                res.violate(Violation(ID, "custom-filter", "nested-tracing-blocks", {"part": "F", "outer": mo, "inner": mi}, f"outer filter {sorted(so)}, inner filter {sorted(si)}: outer logger saw {lo[:n_before]} before, {lo[n_before:n_mid]} during and {lo[n_mid:]} after the inner block; inner logger saw {li}"))
     res.bounds["F_subset_filters"] = 64
     del sys.modules[modname]
     # code with a synthetic file name (exec-generated) and a custom filter that accepts it: what the filter accepts is logged
@@ -551,7 +624,7 @@ def run(ctx: Ctx) -> Result:
     res.merge(part_paths(ctx))
     res.merge(part_misc(ctx))
     res.merge(part_run(ctx))
-    for o in ("P:symlinked-spelling-of-library-path", "A:allow-list-admits-library-package", "A:allow-list-admits-user-module", "A:allow-list-rejects", "C:equal-code-different-verdicts", "F:twin-code-objects-equal", "A:allow-list-name-equal-to-prefix-component", "U:mod=True", "U:link_to_lib=False", "U:link_to_user=True", "U:near-root-path-admitted", "U:near-root-path-rejected"):
+    for o in ("P:symlinked-spelling-of-library-path", "A:allow-list-admits-library-package", "A:allow-list-admits-user-module", "A:allow-list-rejects", "C:equal-code-different-verdicts", "F:twin-code-objects-equal", "A:allow-list-name-equal-to-prefix-component", "U:mod=True", "U:link_to_lib=False", "U:link_to_user=True", "U:near-root-path-admitted", "U:near-root-path-rejected", "R:modules-named-like-parts-of-__main__"):
         res.obligations.setdefault(o, False)
     res.nontrivial_n = res.states
     return res
